@@ -245,9 +245,11 @@ type c03World struct {
 	nextNode  int
 	memScale  int64
 	defSmall  bool
-	accepted  int
-	rejected  int
-	boundary  int
+	// the default group's over-max state is reported once per case
+	defReported bool
+	accepted    int
+	rejected    int
+	boundary    int
 }
 
 var c03DimSets = [][]corev1.ResourceName{
@@ -532,10 +534,16 @@ func (w *c03World) checkAll(where string) {
 				continue
 			}
 			sig := "C03/invariant/used-above-max"
+			fail := c.Fail
 			if q.isDefault {
+				if w.defReported {
+					continue
+				}
+				w.defReported = true
 				sig += "/default-quota"
+				fail = c.Report
 			}
-			c.Fail(sig, "%s: group %s (isParent=%v) shows used %s=%d above max %d although its max was not lowered since usage was last within it (runtimeQuota=%v checkParent=%v)", where, n, q.isParent, c03Short(d), used[n][d], q.max[d], w.runtimeOn, w.parentOn)
+			fail(sig, "%s: group %s (isParent=%v) shows used %s=%d above max %d although its max was not lowered since usage was last within it (runtimeQuota=%v checkParent=%v)", where, n, q.isParent, c03Short(d), used[n][d], q.max[d], w.runtimeOn, w.parentOn)
 		}
 		c.Count("invariant_checks", 1)
 	}
@@ -645,6 +653,9 @@ func (w *c03World) newPod() *c03Pod {
 		if r.Pct(25) {
 			m = r.Weighted(28, 22, 10, 25, 10, 5) // mix modes across dimensions
 		}
+		if leaf.isDefault && !w.defSmall {
+			m = 3
+		}
 		switch m {
 		case 0:
 			v = h[d] // exact fit
@@ -696,6 +707,11 @@ func (w *c03World) deletePod(p *c03Pod, why string) {
 // ---------------------------------------------------------------------------------------------
 // the scheduling attempt and its oracle
 
+// c03LiteralUnrequestedDims: an admission while usage is already above a limit in a declared
+// dimension of which the pod requests nothing is a violation of the statement read literally. Set to
+// false to only count these (counter admitted_already_over_zero_request_*).
+const c03LiteralUnrequestedDims = true
+
 type c03Fail struct {
 	kind   string // own | ancestor | np
 	group  string
@@ -707,6 +723,16 @@ type c03Fail struct {
 func (w *c03World) evaluate(p *c03Pod, views []c03View) (fails []c03Fail, exact, oneOver, scarce bool) {
 	c := w.c
 	leaf := w.quotas[p.quota]
+	mark := func(kind string, sum, lim int64) {
+		if sum == lim {
+			exact = true
+			c.Count("boundary_exact_"+kind, 1)
+		}
+		if sum == lim+1 {
+			oneOver = true
+			c.Count("boundary_one_over_"+kind, 1)
+		}
+	}
 	for i, v := range views {
 		kind := "own"
 		if i > 0 {
@@ -727,11 +753,11 @@ func (w *c03World) evaluate(p *c03Pod, views []c03View) (fails []c03Fail, exact,
 				fails = append(fails, c03Fail{kind: kind, group: v.q.name, dim: d, strict: req > 0,
 					text: fmt.Sprintf("%s group %s: used %d + request %d > limit %d in %s", kind, v.q.name, u, req, lim, c03Short(d))})
 			}
-			if req > 0 && u+req == lim {
-				exact = true
+			if req > 0 {
+				mark(kind, u+req, lim)
 			}
-			if req > 0 && u+req == lim+1 {
-				oneOver = true
+			if lim > v.q.max[d] {
+				c.Count("limit_above_max", 1)
 			}
 		}
 	}
@@ -749,11 +775,8 @@ func (w *c03World) evaluate(p *c03Pod, views []c03View) (fails []c03Fail, exact,
 				fails = append(fails, c03Fail{kind: "np", group: v.q.name, dim: d, strict: req > 0,
 					text: fmt.Sprintf("group %s: non-preemptible used %d + request %d > min %d in %s", v.q.name, u, req, m, c03Short(d))})
 			}
-			if req > 0 && u+req == m {
-				exact = true
-			}
-			if req > 0 && u+req == m+1 {
-				oneOver = true
+			if req > 0 {
+				mark("np", u+req, m)
 			}
 		}
 	}
@@ -825,21 +848,35 @@ func (w *c03World) attempt(p *c03Pod) {
 			reason = "other"
 		}
 		if admitted {
+			// strict failures first: they end the case (except in the default group, see below)
+			sort.SliceStable(fails, func(i, j int) bool { return fails[i].strict && !fails[j].strict })
 			for _, f := range fails {
-				if !f.strict {
-					continue
-				}
 				sig := map[string]string{"own": "C03/admit/over-own-limit", "ancestor": "C03/admit/over-ancestor-limit", "np": "C03/admit/non-preemptible-over-min"}[f.kind]
-				if leaf.isDefault {
-					sig += "/default-quota"
+				fail := c.Fail
+				if !f.strict {
+					// usage is already above the limit in a declared dimension the pod asks nothing of.
+					// The statement read literally ("usage plus the pod's request stays within the limit
+					// in every dimension the quota declares") forbids the admission; the admission does
+					// not push usage any further, though. Own narrow signature, case continues.
+					k := f.kind
+					if leaf.isDefault {
+						k += "_default_quota"
+					}
+					c.Count("admitted_already_over_zero_request_"+k, 1)
+					if !c03LiteralUnrequestedDims {
+						continue
+					}
+					sig = "C03/admit/already-over-limit-in-unrequested-dimension/" + f.kind
+					fail = c.Report
 				}
-				c.Fail(sig, "pod %s (request %s, nonPreemptible=%v) was admitted to group %s although %s (runtimeQuota=%v checkParent=%v); state read before the check: %s",
+				if leaf.isDefault {
+					// narrow signature of its own, and the case goes on, so that a finding in the default
+					// group does not switch off the monitoring of all other groups
+					sig = "C03/admit/over-own-limit/default-quota"
+					fail = c.Report
+				}
+				fail(sig, "pod %s (request %s, nonPreemptible=%v) was admitted to group %s although %s (runtimeQuota=%v checkParent=%v); state read before the check: %s",
 					p.name, c03Str(p.req), p.np, p.quota, f.text, w.runtimeOn, w.parentOn, c03ViewsStr(before))
-			}
-			for _, f := range fails {
-				// already above the limit in a dimension the pod does not ask for: the admission does
-				// not push usage further; counted, not a verdict (see report / property.json)
-				c.Count("admitted_already_over_zero_request_"+f.kind, 1)
 			}
 			w.accepted++
 			c.Count("accepted", 1)
@@ -877,11 +914,7 @@ func (w *c03World) attempt(p *c03Pod) {
 		} else if oneOver {
 			bclass = "one-over"
 		}
-		nf := len(fails)
-		if nf > 3 {
-			nf = 3
-		}
-		c.Seen(w.runtimeOn, w.parentOn, len(w.order), leaf.depth, len(leaf.dims), leaf.isDefault, p.np, admitted, reason, bclass, scarce, nf, p.attempts > 1)
+		c.Seen(w.runtimeOn, w.parentOn, leaf.depth, len(leaf.dims), leaf.isDefault, p.np, admitted, reason, bclass, scarce, p.attempts > 1)
 	}
 	if !admitted {
 		if r.Pct(20) {
@@ -1136,8 +1169,8 @@ func (s *c03Suit) newPlugin(t *testing.T, c *kit.Case, mut func(a *config.Elasti
 
 func TestVerifC03Admission(t *testing.T) {
 	s := &c03Suit{}
-	kit.Run(t, kit.Config{Property: "C03", Unit: "admission", Quick: 480, Thorough: 8000,
-		Rule: "case k runs configuration k%4 of EnableRuntimeQuota x EnableCheckParentQuota on a fresh real Plugin: random webhook-valid quota tree (3-6 groups, depth<=3, per-subtree dimension sets, lent/non-lent, weights) plus the default group, 1-3 nodes sized 0.3x-3x of the top-level max sum; closed loop of 50-150 scheduling attempts (PreFilter -> Reserve -> sometimes Unreserve, retries of rejected pods) interleaved with pod deletions, bind echoes, stale updates, max raised/lowered (also exactly to usage and one below), min and weight changes, node add/remove/resize, events between check and reserve; requests drawn at headroom, headroom+1, headroom-1; distinct = (config, tree size, leaf depth, #dims, default group?, non-preemptible?, verdict, cited check, boundary class, limit<max?, #failing checks, retry?); non-trivial = case with an accepted and a rejected attempt and at least one decision within one unit of a limit"},
+	kit.Run(t, kit.Config{Property: "C03", Unit: "admission", Quick: 1600, Thorough: 48000,
+		Rule: "case k runs configuration k%4 of EnableRuntimeQuota x EnableCheckParentQuota on a fresh real Plugin: random webhook-valid quota tree (3-6 groups, depth<=3, per-subtree dimension sets, lent/non-lent, weights) plus the default group, 1-3 nodes sized 0.3x-3x of the top-level max sum; closed loop of 50-150 scheduling attempts (PreFilter -> Reserve -> sometimes Unreserve, retries of rejected pods) interleaved with pod deletions, bind echoes, stale updates, max raised/lowered (also exactly to usage and one below), min and weight changes, node add/remove/resize, events between check and reserve; requests drawn at headroom, headroom+1, headroom-1; distinct = (config, leaf depth, #dims, default group?, non-preemptible?, verdict, cited check, boundary class, limit<max?, retry?); non-trivial = case with an accepted and a rejected attempt and at least one decision within one unit of a limit"},
 		func(c *kit.Case) {
 			r := c.R
 			w := &c03World{c: c, r: r, quotas: map[string]*c03Quota{}}
